@@ -5,27 +5,38 @@
             -> Lean spec encoder -> DWARFInfo.get_aranges(): `.entries` and `cu_offset_at_addr` at every boundary
             class of every tuple (begin-1, begin, inside, last byte, end, gaps, 0, below, above)
   ar_raw  : mutated encodings and random bytes, model vs code including every error class and need_empty=True
-  nm      : abstract .debug_pubnames/.debug_pubtypes (0-5 sets, empty sets, non-ASCII and duplicate names)
-            -> spec encoder -> DWARFInfo.get_pubnames()/get_pubtypes(): mapping interface and get_cu_headers
+  nm      : abstract .debug_pubnames/.debug_pubtypes (0-5 sets, empty sets, non-ASCII names, names repeated within a set and
+            across sets) -> spec encoder -> DWARFInfo.get_pubnames()/get_pubtypes(): mapping interface and get_cu_headers;
+            repeated names are compared with the declarative content (first-occurrence order, last value) as well
   nm_raw  : mutated / random name tables, model vs code
   cu      : abstract multi-unit .debug_info (32/64-bit units, versions 2-5, all v5 unit types) + an operation history
             (get_CU_containing at every offset 0..size-1, get_CU_at at unit starts, get_DIE_from_lut_entry) on ONE
             DWARFInfo object; histories = every permutation/subset prefix of the unit starts followed by every
             offset, so every reachable cache state is queried
   cu_raw  : mutated sections and arbitrary offsets (including non-unit offsets and out-of-range), model vs code
+  res     : address -> range table -> unit on ONE DWARFInfo: get_aranges() (section absent / no sets / only empty sets /
+            disjoint ranges naming unit starts), cu_offset_at_addr at every boundary class, then get_CU_containing or
+            get_CU_at of the offset found; with a table that gives nothing, get_CU_containing at every offset of the
+            section (the scan a consumer falls back to); .debug_info absent in every tenth case
 """
 import io, itertools
 from common import run_impl, canon, hx, rnd_uint, rnd_bytes
 
 RULE = ('ar: sets/tuples from boundary pools (adjacent, unsorted, equal begins, zero length, max address), all addresses '
-        'derived from every tuple boundary; nm: names from ASCII/multi-byte UTF-8 pools with forced duplicates; cu: up to 4 '
-        '(quick 3) units, every permutation and subset of unit starts as cache-priming prefix then every offset of the section; '
+        'derived from every tuple boundary; nm: names from ASCII/multi-byte UTF-8 pools, half of the tables with forced repetitions within a set and across sets (different values); cu: up to 4 '
+        '(quick 3) units of versions 2-5 (v5: all six unit types; both DWARF formats; four fixed sections per run contain every v5 '
+        'unit type in both formats), every permutation and subset of unit starts as cache-priming prefix then every offset of the section; '
+        'res: range tables absent / without sets / with empty sets only / with disjoint ranges naming unit starts, .debug_info absent in '
+        'every tenth case, addresses from every tuple boundary resolved by get_CU_containing or get_CU_at, then every offset of the section; '
         'raw streams: single-byte substitutions, truncations, extensions of valid encodings plus random bytes. '
         'Non-trivial = distinct (request); every ast case decodes at least one header.')
 ASSUMPTIONS = ['io.BytesIO read/seek/tell semantics', 'bisect.bisect_right, list.sort stability, list.insert, dict order',
                'math.ceil(fp/float(ts))*ts equals integer ceil-division below 2**53 (section offsets)',
                "bytes.decode('utf-8') accepts exactly well-formed UTF-8 (Unicode table 3-7)",
-               'DIE decoding behind get_DIE_from_lut_entry is C04; observed here only through die.offset and die.cu']
+               'DIE decoding behind get_DIE_from_lut_entry is C04; observed here only through die.offset and die.cu',
+               'a present section descriptor is truthy (non-empty namedtuple), so `if self.debug_x_sec:` is `is not None`',
+               'res: address resolution is the composition get_aranges().cu_offset_at_addr(a) ; get_CU_containing/get_CU_at written in the '
+               'harness and in Model.Lookup.unitForAddr (the library has no function for it)']
 
 def ask_many(ctx, reqs, n=6):
     """Driver.ask_many writes a whole batch before reading any reply; with replies of several KB both pipes fill and the two
@@ -252,22 +263,55 @@ NAMES = [b'a', b'main', b'x', b'ns::f', 'Ã©'.encode(), 'Î»x'.encode(), 'æ—¥æœ¬èª
 
 
 def gen_name_sets(rng):
+    """names from the pools; with probability ~1/2 a table gets FORCED repetitions: an entry re-uses a name of an earlier entry
+    of the same set (dup-within) or of an earlier set (dup-across), with a different offset, so that first-occurrence order
+    and last-value-wins are both observable"""
     sets = []
+    force = rng.random() < 0.5
+    seen_before = []            # names of earlier sets
     for _ in range(rng.choice([0, 1, 1, 2, 2, 3, 5])):
         ents = []
+        here = []
         for _ in range(rng.choice([0, 0, 1, 2, 3, 6])):
             r = rng.random()
-            if r < 0.6:
+            if force and here and r < 0.25:
+                nm = rng.choice(here)
+            elif force and seen_before and r < 0.5:
+                nm = rng.choice(seen_before)
+            elif r < 0.7:
                 nm = rng.choice(NAMES)
-            elif r < 0.9:
+            elif r < 0.92:
                 nm = bytes(rng.randrange(1, 128) for _ in range(rng.randrange(0, 6)))
             else:
                 nm = ''.join(chr(rng.choice([rng.randrange(1, 0x80), rng.randrange(0x80, 0x800), rng.randrange(0x800, 0xd800),
                                              rng.randrange(0xe000, 0x10000), rng.randrange(0x10000, 0x110000)]))
                              for _ in range(rng.randrange(1, 4))).encode('utf-8')
+            here.append(nm)
             ents.append([max(1, rnd_uint(rng, 32)), hx(nm)])
+        seen_before += here
         sets.append({'version': rng.choice([2, 2, 2, 0, 0xffff]), 'info_off': rnd_uint(rng, 32), 'info_len': rnd_uint(rng, 32), 'entries': ents})
     return sets
+
+
+def dup_classes(sets):
+    """which kinds of repetition a table has: (within one set, across sets)"""
+    within = across = False
+    earlier = set()
+    for s in sets:
+        here = [e[1] for e in s['entries']]
+        within = within or len(set(here)) != len(here)
+        across = across or bool(earlier & set(here))
+        earlier |= set(here)
+    return within, across
+
+
+def declared_content(sets):
+    """the property's reading for repeated names, computed here without any dict: the distinct names ordered by the index
+    of their FIRST occurrence, each with (unit offset, unit offset + entry offset) of its LAST occurrence"""
+    pairs = [(e[1], s['info_off'], s['info_off'] + e[0]) for s in sets for e in s['entries']]
+    names = [p[0] for p in pairs]
+    firsts = sorted(set(names), key=names.index)
+    return [[n] + list([p for p in pairs if p[0] == n][-1][1:]) for n in firsts]
 
 
 def impl_names(le, dasz, data, which, via_elf=False):
@@ -289,7 +333,7 @@ def impl_names(le, dasz, data, which, via_elf=False):
 def run_nm(ctx):
     rng = ctx.rng('nm')
     reqs = []
-    for _ in range(ctx.budget(400, 12000)):
+    for _ in range(ctx.budget(600, 12000)):
         reqs.append({'p': 'C13', 'k': 'nm', 'le': rng.random() < 0.5, 'dasz': rng.choice([4, 8]), 'sets': gen_name_sets(rng),
                      'which': rng.choice(['pubnames', 'pubtypes'])})
     replies = ask_many(ctx, reqs)
@@ -303,14 +347,31 @@ def run_nm(ctx):
         ctx.out.case(case)
         ctx.out.count('nm:sets=%d' % len(rq['sets']))
         ctx.out.count('nm:' + ('distinct' if r['distinct'] else 'duplicate-names'))
+        within, across = dup_classes(rq['sets'])
+        if within:
+            ctx.out.count('nm:dup-within-set')
+        if across:
+            ctx.out.count('nm:dup-across-sets')
+        if within and across:
+            ctx.out.count('nm:dup-within-and-across')
+        if within or across:
+            nvals = {}
+            for st in rq['sets']:
+                for e in st['entries']:
+                    nvals.setdefault(e[1], set()).add((st['info_off'], e[0]))
+            if any(len(v) > 1 for v in nvals.values()):
+                ctx.out.count('nm:dup-with-different-values')
         if not r['wf']:
             ctx.out.count('nm:not-wf')
-        elif not r['distinct']:
-            # a name encoded twice cannot map to both entries: outside the property's quantifier; model vs code only
-            ctx.out.count('nm:duplicate-names-not-compared-with-expect')
-        elif impl != {'ok': r['expect']}:
-            ctx.out.violation('property', 'nm', case, expect=r['expect'], got=impl, model=r['model'])
-            continue
+        else:
+            # the Spec's declarative content (Lean `orderedLastWins`, theorem names_exact_ordered) against an independent
+            # computation here: a disagreement is a defect of the check, not of the code
+            if r['expect']['items'] != declared_content(rq['sets']):
+                raise RuntimeError('C13 nm: Spec content and harness content disagree on %r' % (rq,))
+            # repeated names: keys in order of first occurrence, each with the value of its last occurrence
+            if impl != {'ok': r['expect']}:
+                ctx.out.violation('property', 'nm', case, expect=r['expect'], got=impl, model=r['model'])
+                continue
         if impl != r['model']:
             ctx.out.violation('correspondence', 'nm', case, got=impl, model=r['model'])
 
@@ -334,13 +395,17 @@ def run_nm_raw(ctx):
     for sq in seqs:
         body = struct.pack('<HII', 2, 0, 100) + struct.pack('<I', 5) + sq + b'\0' + struct.pack('<I', 0)
         reqs.append({'p': 'C13', 'k': 'nm_raw', 'le': True, 'dasz': 4, 'hex': hx(struct.pack('<I', len(body)) + body), 'which': 'pubnames'})
+    # the section absent: get_pubnames() / get_pubtypes() answer None (Model.Lookup.getNameLUT)
+    for which in ('pubnames', 'pubtypes'):
+        for le in (True, False):
+            reqs.append({'p': 'C13', 'k': 'nm_raw', 'le': le, 'dasz': 4, 'hex': None, 'which': which})
     replies = ask_many(ctx, reqs)
     for rq, r in zip(reqs, replies):
         if 'fatal' in r:
             raise RuntimeError('driver: %s on %r' % (r['fatal'], rq))
-        impl = impl_names(rq['le'], rq['dasz'], bytes.fromhex(rq['hex']), rq['which'])
+        impl = impl_names(rq['le'], rq['dasz'], None if rq['hex'] is None else bytes.fromhex(rq['hex']), rq['which'])
         ctx.out.case(rq)
-        ctx.out.count('nm_raw:' + ('ok' if 'ok' in impl else impl['err']))
+        ctx.out.count('nm_raw:' + ('section-absent' if rq['hex'] is None else 'ok' if 'ok' in impl else impl['err']))
         if impl != r['model']:
             ctx.out.violation('correspondence', 'nm_raw', rq, got=impl, model=r['model'])
 
@@ -368,6 +433,11 @@ def impl_ops(le, dasz, data, ops, stub_die=False):
         finally:
             CompileUnit._get_cached_DIE = orig
     di = mk_dwarfinfo(le, dasz, info=data, abbrev=ABBREV)
+    return {'answers': answers_for(di, ops), 'offsets': list(di._cu_offsets_map)}
+
+
+def answers_for(di, ops):
+    from elftools.dwarf.namelut import NameLUTEntry
     answers = []
     for op in ops:
         if op[0] == 'c':
@@ -379,7 +449,36 @@ def impl_ops(le, dasz, data, ops, stub_die=False):
                 die = di.get_DIE_from_lut_entry(NameLUTEntry(cu_ofs=op[1], die_ofs=op[2]))
                 return [cu_canon(die.cu), die.offset]
             answers.append(run_impl(f))
-    return {'answers': answers, 'offsets': list(di._cu_offsets_map)}
+    return answers
+
+
+def impl_res(le, dasz, ar, info, queries, ops, via_elf=False):
+    """get_aranges(), then per address `cu_offset_at_addr` followed by get_CU_containing / get_CU_at of the offset found, then
+    unit operations: all on ONE DWARFInfo; `ar` / `info` None = the section is absent.  Same shape as the driver's runRes."""
+    from common import classify_exception
+    if via_elf:
+        secs = {'abbrev': ABBREV}
+        if ar is not None:
+            secs['aranges'] = ar
+        if info is not None:
+            secs['info'] = info
+        di = mk_dwarfinfo_elf(le, dasz, **secs)
+    else:
+        di = mk_dwarfinfo(le, dasz, aranges=ar, info=info, abbrev=ABBREV)
+    try:
+        t = di.get_aranges()
+    except Exception as e:      # noqa: BLE001
+        return {'aranges': {'err': classify_exception(e)}}
+    resolved = []
+    for a, byc in queries:
+        def f():
+            off = t.cu_offset_at_addr(a) if t is not None else None
+            if off is None:
+                return None
+            return cu_canon(di.get_CU_containing(off) if byc else di.get_CU_at(off))
+        resolved.append(run_impl(f))
+    return {'aranges': {'ok': None if t is None else [entry_canon(e) for e in t.entries]}, 'resolved': resolved,
+            'answers': answers_for(di, ops), 'offsets': list(di._cu_offsets_map)}
 
 
 def gen_units(rng, n):
@@ -448,20 +547,61 @@ def check_cu(ctx, stream, rq, r, data):
         ctx.out.violation('correspondence', stream, rq, got=impl if not bad else bad, model=model if not bad else None)
 
 
+UT_NAMES = {1: 'compile', 2: 'type', 3: 'partial', 4: 'skeleton', 5: 'split_compile', 6: 'split_type'}
+
+
+def v5_unit(rng, fmt64, utype):
+    return {'fmt64': fmt64, 'version': 5, 'utype': utype, 'abbrev_off': 0, 'asz': rng.choice([4, 8]), 'id8': rnd_uint(rng, 64),
+            'type_off': rnd_uint(rng, 64 if fmt64 else 32),
+            'body': hx(bytes(rng.choice([0, 1, 1]) for _ in range(rng.choice([0, 1, 2, 3]))))}
+
+
+def fixed_v5_sections(rng):
+    """every DWARF 5 unit type that may appear in .debug_info (DW_UT_compile, type, partial, skeleton, split_compile,
+    split_type), in both DWARF formats, on every run: three units per section, mixed with a version 2-4 unit"""
+    out = []
+    for fmt64 in (False, True):
+        for types in ((1, 2, 3), (4, 5, 6)):
+            us = [v5_unit(rng, fmt64, t) for t in types]
+            old = gen_units(rng, 1)[0]
+            old['version'] = rng.choice([2, 3, 4])
+            for k in ('utype', 'id8', 'type_off'):
+                old.pop(k, None)
+            us.insert(rng.randrange(len(us) + 1), old)
+            out.append(us)
+    return out
+
+
+def count_units(ctx, units):
+    for u in units:
+        ctx.out.count('cu:unit v%d %s' % (u['version'], 'dwarf64' if u['fmt64'] else 'dwarf32'))
+        if u['version'] == 5:
+            ctx.out.count('cu:unit v5 DW_UT_%s' % UT_NAMES[u.get('utype', 1)])
+            ctx.out.count('cu:unit v5 DW_UT_%s %s' % (UT_NAMES[u.get('utype', 1)], 'dwarf64' if u['fmt64'] else 'dwarf32'))
+
+
 def run_cu(ctx):
     rng = ctx.rng('cu')
     exhaustive = ctx.tier == 'thorough'
-    ncases = ctx.budget(40, 600)
-    for ci in range(ncases):
+    ncases = ctx.budget(36, 600)
+    fixed = fixed_v5_sections(rng)
+    for ci in range(ncases + len(fixed)):
         le = rng.random() < 0.5
-        n = rng.choice([1, 2, 2, 3, 3, 4] if exhaustive else [1, 2, 2, 3, 3])
-        units = gen_units(rng, n)
+        if ci < len(fixed):
+            units = fixed[ci]
+            n = len(units)
+        else:
+            n = rng.choice([1, 2, 2, 3, 3, 4] if exhaustive else [1, 2, 2, 3, 3])
+            units = gen_units(rng, n)
         probe = ctx.driver.ask({'p': 'C13', 'k': 'cu', 'le': le, 'dasz': 4, 'units': units, 'ops': []})
         if 'fatal' in probe:
             raise RuntimeError('driver: %s' % probe['fatal'])
+        if not probe['wf']:
+            raise RuntimeError('C13 cu: generated units are not well-formed: %r' % (units,))
+        count_units(ctx, units)
         data = bytes.fromhex(probe['bytes'])
         starts = probe['starts']
-        hs = histories(rng, starts, len(data), exhaustive)
+        hs = histories(rng, starts, len(data), exhaustive and ci >= len(fixed))
         # plus random lut lookups and exact lookups interleaved
         for h in hs[:]:
             extra = []
@@ -480,7 +620,7 @@ def run_cu(ctx):
             ctx.out.count('cu:ops', len(rq['ops']))
             check_cu(ctx, 'cu', rq, r, data)
         if ctx.time_left() < 20:
-            ctx.out.notes.append('cu: stopped after %d of %d cases (time budget)' % (ci + 1, ncases))
+            ctx.out.notes.append('cu: stopped after %d of %d cases (time budget)' % (ci + 1, ncases + len(fixed)))
             break
 
 
@@ -509,12 +649,118 @@ def run_cu_raw(ctx):
         check_cu(ctx, 'cu_raw', rq, r, bytes.fromhex(rq['hex']))
 
 
+def gen_res_sets(rng, starts, total, kind):
+    """range sets whose unit offsets are (mostly) unit starts of the section; `kind`: 'absent' -> None, 'nosets' -> [],
+    'emptysets' -> only sets without tuples, 'normal' -> disjoint ranges"""
+    if kind == 'absent':
+        return None
+    if kind == 'nosets':
+        return []
+    sets = []
+    used = []
+    base = rng.choice([0, 1, 0x1000, 0xfffff000])
+    for _ in range(rng.choice([1, 2, 2, 3, 4])):
+        asz = rng.choice([4, 8])
+        r = rng.random()
+        if starts and r < 0.8:
+            off = rng.choice(starts)[0]
+        elif r < 0.9:
+            off = rng.randrange(0, total + 3)              # maybe inside a unit / just outside the section
+        else:
+            off = rnd_uint(rng, 32)
+        tuples = []
+        if kind != 'emptysets':
+            for _ in range(rng.choice([0, 1, 1, 2, 3])):
+                for _try in range(20):
+                    a = base + rng.randrange(0, 300)
+                    ln = rng.randrange(1, 20)
+                    if a + ln <= (1 << 32) and all(a + ln <= b or b + l <= a for b, l in used):
+                        used.append((a, ln))
+                        tuples.append([a, ln])
+                        break
+        rng.shuffle(tuples)
+        sets.append({'version': 2, 'info_off': off, 'asz': asz, 'tuples': tuples, 'fill': rng.choice([0, 0, 0xff])})
+    return sets
+
+
+def run_res(ctx):
+    """address -> range table -> unit (Props.C13.addr_to_unit) and the tables that give nothing: section absent, no sets, only
+    empty sets (aranges_absent, aranges_empty_resolves_nothing), .debug_info absent (cu_lookup_no_info); with a table that gives
+    nothing, get_CU_containing over every offset of the section (cu_containing_without_table)"""
+    rng = ctx.rng('res')
+    reqs, metas = [], []
+    for ci in range(ctx.budget(160, 4000)):
+        le = rng.random() < 0.5
+        kind = ['absent', 'nosets', 'emptysets', 'normal'][ci % 4] if ci < 40 else rng.choice(['absent', 'nosets', 'emptysets', 'normal', 'normal', 'normal'])
+        info_absent = (ci % 10 == 9)
+        units = None if info_absent else gen_units(rng, rng.choice([1, 2, 2, 3]))
+        starts, total = [], 0
+        if units is not None:
+            probe = ctx.driver.ask({'p': 'C13', 'k': 'cu', 'le': le, 'dasz': 4, 'units': units, 'ops': []})
+            if 'fatal' in probe:
+                raise RuntimeError('driver: %s' % probe['fatal'])
+            starts, total = probe['starts'], len(probe['bytes']) // 2
+        sets = gen_res_sets(rng, starts, total, kind)
+        addrs = [a for a in addrs_for(rng, sets or []) if a < (1 << 33)]
+        rng.shuffle(addrs)
+        queries = [[a, rng.random() < 0.5] for a in addrs[:24]]
+        # the scan a consumer falls back to when the table gives nothing: every offset of the section, any order; plus
+        # exact lookups, also interleaved before the queries' cache effects
+        order = list(range(total))
+        rng.shuffle(order)
+        ops = [['c', x] for x in (order if kind != 'normal' else order[:6])] + [['a', o] for o, _, _ in starts] \
+            + [['c', total], ['a', total + 1]]
+        reqs.append({'p': 'C13', 'k': 'res', 'le': le, 'dasz': rng.choice([4, 8]), 'sets': sets, 'units': units,
+                     'queries': queries, 'ops': ops})
+        metas.append((kind, info_absent))
+    replies = ask_many(ctx, reqs, 2)
+    for i, (rq, r, (kind, info_absent)) in enumerate(zip(reqs, replies, metas)):
+        if 'fatal' in r:
+            raise RuntimeError('driver: %s on %r' % (r['fatal'], rq))
+        ar = None if r['ar_bytes'] is None else bytes.fromhex(r['ar_bytes'])
+        info = None if r['info_bytes'] is None else bytes.fromhex(r['info_bytes'])
+        via_elf = bool(i % 3 == 0 and info and (ar is None or len(ar) > 0))      # through ELFFile.get_dwarf_info()
+        impl = impl_res(rq['le'], rq['dasz'], ar, info, rq['queries'], rq['ops'], via_elf)
+        case = {'req': rq, 'via_elf': bool(via_elf)}
+        ctx.out.case(case)
+        ctx.out.count('res:table=' + kind)
+        ctx.out.count('res:info=' + ('absent' if info_absent else 'present'))
+        model = r['model']
+        if r['wf'] and r['poisoned']:
+            # get_CU_at at an offset where no unit starts caches whatever parses there (by design): model vs code only
+            ctx.out.count('res:get_CU_at-of-non-start-poisons-cache-model-only')
+        elif r['wf'] and 'resolved' in impl:
+            bad = None
+            if kind == 'absent':
+                if impl['aranges'] != {'ok': None}:
+                    bad = ('aranges', {'ok': None}, impl['aranges'])
+            elif impl['aranges'] != {'ok': r['table_entries']}:
+                bad = ('aranges', {'ok': r['table_entries']}, impl['aranges'])
+            for what, exps, gots in (('resolved', r['expect_resolved'], impl['resolved']), ('answers', r['expect_answers'], impl['answers'])):
+                for j, (e, g) in enumerate(zip(exps, gots)):
+                    if e is None:
+                        ctx.out.count('res:%s-outside-quantifier' % what)
+                    else:
+                        if what == 'resolved':
+                            ctx.out.count('res:resolved=' + ('unit' if e.get('ok') is not None else 'nothing'))
+                        if e != g and bad is None:
+                            bad = (what, j, e, g)
+            if bad is not None:
+                ctx.out.violation('property', 'res', case, first_bad=bad, got=impl, model=model)
+                continue
+        elif not r['wf']:
+            ctx.out.count('res:info-absent-model-only' if info_absent else 'res:not-wf')
+        if impl != model:
+            ctx.out.violation('correspondence', 'res', case, got=impl, model=model)
+
+
 def run(ctx):
     run_ar(ctx)
     run_ar_raw(ctx)
     run_nm(ctx)
     run_nm_raw(ctx)
     run_cu_raw(ctx)
+    run_res(ctx)
     run_cu(ctx)
 
 
@@ -541,11 +787,23 @@ def replay(ctx, payload):
         r = ctx.driver.ask(rq)
         impl = impl_names(rq['le'], rq['dasz'], bytes.fromhex(r['bytes']), rq['which'], case.get('via_elf', False))
         res.update(impl=impl, expect=r['expect'], model=r['model'],
-                   fails=(r['wf'] and r['distinct'] and impl != {'ok': r['expect']}) or impl != r['model'])
+                   fails=(r['wf'] and impl != {'ok': r['expect']}) or impl != r['model'])
     elif stream == 'nm_raw':
         r = ctx.driver.ask(case)
-        impl = impl_names(case['le'], case['dasz'], bytes.fromhex(case['hex']), case['which'])
+        impl = impl_names(case['le'], case['dasz'], None if case['hex'] is None else bytes.fromhex(case['hex']), case['which'])
         res.update(impl=impl, model=r['model'], fails=impl != r['model'])
+    elif stream == 'res':
+        rq = case['req']
+        r = ctx.driver.ask(rq)
+        ar = None if r['ar_bytes'] is None else bytes.fromhex(r['ar_bytes'])
+        info = None if r['info_bytes'] is None else bytes.fromhex(r['info_bytes'])
+        impl = impl_res(rq['le'], rq['dasz'], ar, info, rq['queries'], rq['ops'], case.get('via_elf', False))
+        fails = impl != r['model']
+        if r['wf'] and not r['poisoned'] and 'resolved' in impl:
+            fails = fails or impl['aranges'] != {'ok': r['table_entries']} \
+                or any(e is not None and e != g for e, g in zip(r['expect_resolved'], impl['resolved'])) \
+                or any(e is not None and e != g for e, g in zip(r['expect_answers'], impl['answers']))
+        res.update(impl=impl, expect={'resolved': r['expect_resolved'], 'answers': r['expect_answers']}, model=r['model'], fails=fails)
     else:
         r = ctx.driver.ask(case)
         data = bytes.fromhex(r['bytes'] if stream == 'cu' else case['hex'])
